@@ -111,7 +111,10 @@ def step (st : St) (op impl : String) : St × Verdict :=
           match withOracle st.table fun O => allValid O w with
           | none => (st, .bad)
           | some true => (st, if impl == ms then .ok else .diff ms)
-          | some false => (st, .propfail "build_all_valid")
+          | some false =>
+            if invert && (withOracle st.table fun O => invertContract O src src) != some true then
+              (st, .propfail "build_all_valid class=degenerate_loop")
+            else (st, .propfail "build_all_valid")
   | "validator" :: _ =>
     match (segment op "pts").bind parseFeats, (segment op "src").bind parseFeats with
     | some pts, some src =>
@@ -121,7 +124,10 @@ def step (st : St) (op impl : String) : St × Verdict :=
         match withOracle st.table fun O => out.all (valid O (pts ++ out)) with
         | none => (st, .bad)
         | some true => (st, if impl == m then .ok else .diff m)
-        | some false => (st, .propfail "validator_all_valid")
+        | some false =>
+          if (withOracle st.table fun O => invertContract O pts src) != some true then
+            (st, .propfail "validator_all_valid class=degenerate_loop")
+          else (st, .propfail "validator_all_valid")
       | some _, none => (st, .propfail "validator-crashed")
       | none, _ => (st, .bad)
     | _, _ => (st, .bad)
